@@ -231,6 +231,7 @@ impl Mix {
                 max_pairs: 6,
                 max_headers: 5,
                 big_body_one_in: 200,
+                boundary_form_one_in: 0,
                 forms: true,
                 form_focus: false,
             },
@@ -507,6 +508,9 @@ pub fn run_form_world(t: &mut Tape, mix: &Mix, judge: Judge) -> RunOut {
     let mut m = mix.clone();
     m.req.form_focus = true;
     m.req.forms = true;
+    if m.req.boundary_form_one_in == 0 {
+        m.req.boundary_form_one_in = 80;
+    }
     m.node.same_scope = true;
     m.node.allow_fold = true;
     m.max_nodes = 2;
